@@ -139,12 +139,18 @@ def replay(job, o, workroot, repo):
             for r in (1, 0):
                 cands.append(["subset_num", S, start, 0, r, 3 * S])
     else:
-        for nv in (8, 12, 16, 30):
+        v = o.get("inputs", {})
+        tf = lambda key, d: next((1 if str(val).upper().startswith("T") else 0 for k, val in v.items() if k.endswith(key)), d)
+        nvc = next((_num(val) for k, val in v.items() if k.endswith(".num_views")), None)
+        if nvc and 1 <= nvc <= 256:  # the verifier's counterexample configuration first
+            cands.append(["partition", nvc, min(S, nvc), 2, tf("do_symmetry_90degrees_min_phi", 0), tf("do_symmetry_180degrees_min_phi", 0),
+                          tf("do_symmetry_swap_segment", 0)])
+        for nv in (8, 12, 16, 30, 6, 10):
             for flags in ((1, 1, 1), (0, 1, 1), (0, 0, 1), (0, 0, 0)):
                 cands.append(["partition", nv, min(S, nv), 2] + list(flags))
     for c in cands:
         st, detail = native.run(exe, c)
         if st == "confirmed":
             return {"status": "confirmed", "detail": detail, "command": "c06_replay " + " ".join(map(str, c)),
-                    "from_verifier_counterexample": c is cands[0] and kern == "K_get_subset_num" and sub is not None}
+                    "from_verifier_counterexample": c is cands[0] and ((kern == "K_get_subset_num" and sub is not None) or (kern != "K_get_subset_num" and bool(nvc)))}
     return {"status": "not-reproduced", "detail": "%d native runs" % len(cands)}
